@@ -26,6 +26,13 @@ _Bool nondet_bool(void);
 #define VERIF_WANT_FORMAT 1
 /* ghost index: one arbitrary element position, fixed by the harness before the call ("for all g" by generalisation) */
 extern size_t verif_g;
+#ifdef VERIF_NO_LOOP_CONTRACTS
+#define VERIF_LC(...)
+#else
+#define VERIF_LC(...) __VA_ARGS__
+#endif
+extern uint64_t verif_written;   /* ghost: set of table columns written through the column-store stubs (C06) */
+extern size_t verif_g2;   /* second arbitrary position: ELEMENT index of vectors whose elements own strings */
 /* ghost: the total length of the labels of the vector being encoded (the same Sigma in the sizing pass and in the encoding pass) */
 extern size_t verif_sum;
 /* ghost: the one element position of an externally supplied vector that the harness makes fully valid */
@@ -102,7 +109,7 @@ static void verif_fail(const char* msg) { fprintf(stderr, "VERIF_ASSERT failed: 
     VERIF_ASSUME(n <= v.cap); v.size = n; return v; } \
   static vec_##TAG vec_##TAG##_ctor_n_val(size_t n, T x) { vec_##TAG v = vec_##TAG##_ctor_n(n); \
     /* every element is a copy of x: stated for the arbitrary ghost position verif_g */ \
-    if (verif_exc == 0 && verif_g < n) v.data[verif_g] = x; return v; } \
+    if (verif_exc == 0 && verif_g < n) v.data[verif_g] = x; if (verif_exc == 0 && verif_g2 < n) v.data[verif_g2] = x; return v; } \
   static void vec_##TAG##_reserve(vec_##TAG* v, size_t n) { if (n > VERIF_VEC_MAXN(T)) { verif_exc = EXC_std_length_error; } } \
   static void vec_##TAG##_resize(vec_##TAG* v, size_t n) { if (n > VERIF_VEC_MAXN(T)) { verif_exc = EXC_std_length_error; return; } \
     VERIF_ASSUME(n <= v->cap); v->size = n; } \
@@ -120,7 +127,7 @@ static void verif_fail(const char* msg) { fprintf(stderr, "VERIF_ASSERT failed: 
   static T* vec_##TAG##_at(const vec_##TAG* v, size_t i) { if (i >= v->size) { verif_exc = EXC_std_out_of_range; return v->data; } return &v->data[i]; } \
   static vec_##TAG vec_##TAG##_copy_shallow(const vec_##TAG* s) { vec_##TAG v = vec_##TAG##_default(); VERIF_ASSUME(s->size <= v.cap); v.size = s->size; \
     /* a copy copies every element: stated for the arbitrary ghost position verif_g */ \
-    if (verif_g < s->size) v.data[verif_g] = s->data[verif_g]; return v; }
+    if (verif_g < s->size) v.data[verif_g] = s->data[verif_g]; if (verif_g2 < s->size) v.data[verif_g2] = s->data[verif_g2]; return v; }
 #else
 static void* verif_alloc(size_t n, size_t sz)
 {
@@ -167,5 +174,6 @@ static void* verif_alloc(size_t n, size_t sz)
 #endif
 #ifdef VERIF_WANT_FORMAT
 #include "verif_format.h"
+#include "verif_track.h"
 #endif
 #endif
